@@ -1,2 +1,2 @@
-import OjgVerif.Reflect.Driver
-def main : IO Unit := OjgVerif.driverMain OjgVerif.Reflect.handle
+import OjgVerif.Reflect.EncOmitDriver
+def main : IO Unit := OjgVerif.driverMain OjgVerif.Reflect.handleAll
